@@ -17,12 +17,29 @@ import (
 	"time"
 )
 
-// Root is /verif (overridable for tests of the harness itself).
+// Root is /verif: where known_findings.json lives.
 func Root() string {
 	if r := os.Getenv("VERIF_ROOT"); r != "" {
 		return r
 	}
 	return "/verif"
+}
+
+// Out is where evidence/ and replays/ are written (VERIF_OUT, default Root).
+func Out() string {
+	if r := os.Getenv("VERIF_OUT"); r != "" {
+		return r
+	}
+	return Root()
+}
+
+// Repo is the source tree the check was built against (VERIF_REPO, default
+// /repo); checks that read source or definition files at run time use it.
+func Repo() string {
+	if r := os.Getenv("VERIF_REPO"); r != "" {
+		return r
+	}
+	return "/repo"
 }
 
 type finding struct {
@@ -189,7 +206,7 @@ func (r *Run) Violation(sig string, detail any) {
 	if len(r.viols) >= 20 {
 		return
 	}
-	dir := filepath.Join(Root(), "replays")
+	dir := filepath.Join(Out(), "replays")
 	os.MkdirAll(dir, 0o755)
 	path := filepath.Join(dir, fmt.Sprintf("%s-%s-%d-%d.json", r.ID, r.Tier, r.Seed, len(r.viols)))
 	raw, err := json.MarshalIndent(map[string]any{
@@ -270,7 +287,7 @@ func (r *Run) Finish(level, rule string, assumptions ...string) {
 		r.T.Fatalf("evidence marshal: %v", err)
 	}
 	if os.Getenv("VERIF_NO_EVIDENCE") == "" {
-		dir := filepath.Join(Root(), "evidence")
+		dir := filepath.Join(Out(), "evidence")
 		os.MkdirAll(dir, 0o755)
 		if err := os.WriteFile(filepath.Join(dir, r.ID+".json"), raw, 0o644); err != nil {
 			r.T.Fatalf("evidence write: %v", err)
